@@ -123,6 +123,16 @@ fn candidates(p: &Plan) -> Vec<Plan> {
     cfg_off!(cli_fail_fast, false);
     cfg_off!(builder_fail_fast, false);
     cfg_off!(custom_which, false);
+    if p.pipeline {
+        let mut q = p.clone();
+        q.pipeline = false;
+        out.push(q);
+    }
+    if !p.filtered_rules.is_empty() {
+        let mut q = p.clone();
+        q.filtered_rules.clear();
+        out.push(q);
+    }
     cfg_off!(cli_retry_filter, None);
     cfg_off!(builder_retry_filter, None);
     if p.cfg.closure_retry.is_some() {
